@@ -94,6 +94,7 @@ func Load(dir string) (*Prog, error) {
 		}
 	}
 	p.NFuncs = len(p.ModuleFuncs())
+	p.BuildBindings()
 	return p, nil
 }
 
